@@ -89,6 +89,10 @@ func CheckProperty(cfg *Config, id string) int {
 		}
 		shards = []Shard{{Entry: parts[0], Args: args, Name: "adhoc " + a}}
 	}
+	if os.Getenv("GOSE_COUNT") != "" {
+		fmt.Println("SHARDS", len(shards))
+		return 0
+	}
 	if f := os.Getenv("GOSE_SHARD"); f != "" {
 		var sel []Shard
 		for i, s := range shards {
